@@ -2,6 +2,7 @@ package main
 
 import (
 	"context"
+	"errors"
 	"fmt"
 	"io"
 	"strings"
@@ -89,6 +90,16 @@ func implReader(chunks [][]byte, eof bool) (msgs []string, status string) {
 // implReaderX: with failData non-nil the last Read returns failData together with a
 // non-EOF error (the io.Reader contract allows n > 0 with an error).
 func implReaderX(chunks [][]byte, eof bool, failData []byte) (msgs []string, status string) {
+	msgs, status, _ = implReaderC(chunks, eof, failData, -1)
+	return
+}
+
+// implReaderC: with budget >= 0 the program context is cancelled as soon as `budget` messages
+// have been received, and nothing is received afterwards (the reader's next send finds the
+// context done). cancelled reports whether the reader returned the context's error. The
+// reads it issued after the cancellation are counted (readsAfterCancel must stay 0 or 1: the
+// Read in progress, never a further one after a message was refused).
+func implReaderC(chunks [][]byte, eof bool, failData []byte, budget int) (msgs []string, status string, cancelled bool) {
 	cp := make([][]byte, len(chunks))
 	copy(cp, chunks)
 	rd := &scriptedReader{chunks: cp, final: io.EOF, failData: failData}
@@ -107,12 +118,20 @@ func implReaderX(chunks [][]byte, eof bool, failData []byte) (msgs []string, sta
 			}
 		}()
 		err := tea.VerifReadAnsiInputs(ctx, ch, rd)
-		if err == nil {
+		switch {
+		case err == nil:
 			done <- "nil-error"
-		} else {
+		case errors.Is(err, context.Canceled):
+			done <- "ok-cancelled"
+		default:
 			done <- "ok"
 		}
 	}()
+	recv := ch // the receiving side: nil once the cancellation has happened
+	if budget == 0 {
+		cancel()
+		recv = nil
+	}
 	timeout := time.After(10 * time.Second)
 	idle := rd.idle
 	for {
@@ -120,7 +139,7 @@ func implReaderX(chunks [][]byte, eof bool, failData []byte) (msgs []string, sta
 		case <-idle:
 			idle = nil
 			close(rd.resume) // everything delivered so far is all there will be
-		case m := <-ch:
+		case m := <-recv:
 			d := tea.VerifDescribeMsg(m)
 			if strings.HasPrefix(d, "unknowncsi ") {
 				// The message aliases the read buffer, which the reader goroutine
@@ -129,13 +148,20 @@ func implReaderX(chunks [][]byte, eof bool, failData []byte) (msgs []string, sta
 				d = fmt.Sprintf("unknowncsi len=%d", strings.Count(d, ",")+1)
 			}
 			msgs = append(msgs, d)
+			if budget >= 0 && len(msgs) >= budget {
+				cancel()
+				recv = nil // nothing is received any more
+			}
 		case st := <-done:
 			if rd.afterError {
-				return msgs, "read-after-error"
+				return msgs, "read-after-error", false
 			}
-			return msgs, st
+			if st == "ok-cancelled" {
+				return msgs, "ok", true
+			}
+			return msgs, st, false
 		case <-timeout:
-			return msgs, "stall"
+			return msgs, "stall", false
 		}
 	}
 }
@@ -289,9 +315,32 @@ func streamDetect(c *corrOut, g *inputGen, r *rng, n int, thorough bool) {
 		}
 		return out
 	}
+	// plainScope: a buffer without ESC and without bytes >= 0x80 is a concatenation of printable
+	// characters and control characters (each a key of its own): in the domain of C08 as well
+	plainScope := func(b []byte) string {
+		if len(b) == 0 {
+			return "C09"
+		}
+		for _, x := range b {
+			if x == 0x1b || x >= 0x80 {
+				return "C09"
+			}
+		}
+		return "C08 C09"
+	}
 	both := func(b []byte) {
+		auto := c.scope == ""
+		if auto {
+			c.scope = plainScope(b)
+		}
 		emit(b, false)
+		if auto {
+			c.scope = "C09" // (with canHaveMoreData the answer may be "need more": totality only)
+		}
 		emit(b, true)
+		if auto {
+			c.scope = ""
+		}
 	}
 	// (d) exhaustive short buffers
 	c.scope = "C09"
@@ -304,7 +353,7 @@ func streamDetect(c *corrOut, g *inputGen, r *rng, n int, thorough bool) {
 		}
 		both([]byte{byte(a)})
 	}
-	c.scope = "C09" // arbitrary short buffers: totality only
+	c.scope = "" // short buffers: the scope is decided per buffer (plainScope)
 	firsts := []byte{0x1b, 0, ' ', 'a', 0x7f, 0xc3, 0xe0, 0xed, 0xf0, 0xf4, 0x80, 0xff, '['}
 	if thorough {
 		firsts = make([]byte, 256)
@@ -354,6 +403,29 @@ func streamDetect(c *corrOut, g *inputGen, r *rng, n int, thorough bool) {
 			}
 			c.scope = "C09" // followed by junk: totality only
 			both(append(append([]byte(nil), e.bytes...), malformed(r, r.rangeIn(1, 4))...))
+		}
+	}
+	// a printable character, then every one-byte documented key (control characters, space,
+	// DEL), then a printable character: the run of characters stops at the key, the key
+	// decodes to itself, the next run starts after it (expectations from the frozen table)
+	var oneByte []event
+	for cb := 1; cb <= 0x1f; cb++ {
+		if cb != 0x1b {
+			oneByte = append(oneByte, evCtrl(byte(cb), false))
+		}
+	}
+	oneByte = append(oneByte, evCtrl(0x7f, false), g.evSpace(false), evNUL(false))
+	for _, e := range oneByte {
+		pre, post := g.evRunes([]rune{'a'}), g.evRunes([]rune{'b'})
+		buf := append(append(append([]byte(nil), pre.bytes...), e.bytes...), post.bytes...)
+		c.scope = "C08 C09"
+		for off, ev := range []event{pre, e, post} {
+			out := emit(buf[off:], false)
+			want := fmt.Sprintf("%d %s", len(ev.bytes), ev.want)
+			if out != want {
+				c.addFinding(finding{Property: "C08", Class: "new", What: "a one-byte key between printable characters: the run of characters does not stop at it, or it does not decode to its key",
+					Input: "0 " + hexOf(buf[off:]), Expected: want, Observed: out})
+			}
 		}
 	}
 	// mouse: every button code, both finals, boundary coordinates
@@ -719,6 +791,31 @@ func streamReader(c *corrOut, g *inputGen, r *rng, n int, thorough bool) {
 				c.addFinding(finding{Property: "C04", Class: "new", What: "an input read error is not reported (a Read returned data together with the error): " + st, Input: op, Observed: line})
 			}
 			continue
+		}
+		if r.chance(1, 8) {
+			// cancellation: the context is cancelled after `budget` messages were taken; the
+			// reader must have sent exactly the first `budget` messages and stop at once
+			full, st0 := implReader(chunks, eof)
+			if st0 == "ok" {
+				budget := r.intn(len(full) + 2)
+				msgs, st, cancelled := implReaderC(chunks, eof, nil, budget)
+				line := strings.Join(msgs, " | ") + fmt.Sprintf(" # cancelled=%t", cancelled)
+				if st != "ok" {
+					line = st
+				}
+				op := fmt.Sprintf("C%d", budget) + readerLine(chunks, eof)
+				c.scope = "C09 C04"
+				c.emit(op, line, "cancelled")
+				want := full
+				if budget < len(full) {
+					want = full[:budget]
+				}
+				if st != "ok" || strings.Join(msgs, " | ") != strings.Join(want, " | ") || cancelled != (budget < len(full)) {
+					c.addFinding(finding{Property: "C09", Class: "new", What: "cancellation does not simply cut the message stream (messages after the cancellation, reordered or missing ones, or the reader did not stop with the context's error)",
+						Input: op, Expected: strings.Join(want, " | ") + fmt.Sprintf(" # cancelled=%t", budget < len(full)), Observed: line})
+				}
+				continue
+			}
 		}
 		line, _, st := implReaderLine(chunks, eof)
 		c.scope = "C09" // arbitrary bytes under arbitrary chunkings: totality only
